@@ -6,8 +6,15 @@ import Gsd.Proofs.Lemmas.Event
 
 Property theorems only (helpers: `Proofs/Lemmas/Backends.lean`, `Proofs/Lemmas/Relay.lean`).
 
-* `C17_expand_exact`        each enabled sub-metric of each series exactly once, nothing else
-                            (datadog, influxdb, graphite, cloudwatch, stdout, otlp-as-gauges, statsdaemon);
+* `C17_expand_exact`        each enabled sub-metric of each series exactly once, nothing else — for **every**
+                            configuration: datadog, influxdb, graphite, cloudwatch, stdout, otlp (timers as
+                            gauges or as histograms), newrelic (flush types infra, insights, metrics) and the
+                            statsdaemon relay; "enabled" is `enabled` (`enabledStd` / `enabledNr` /
+                            `enabledOtlp` / `enabledRelay` of `Model/Backends.lean`);
+* `C17_expand_nodup`, `C17_expand_mem`  the same as "no identity twice" / "emitted iff enabled";
+* `C17_disabled_not_emitted*`  the `TimerSubtypes` mask is honoured (statsd naming family; newrelic with the
+                            documented exception: the four statistics inside the Metric API `summary` metric
+                            are sent whether or not they are masked — `C17_newrelic_summary_not_gated`);
 * `C17_batches_partition*`  every batching loop, for **all** inputs, open batches and sizes: the
                             concatenation of the batches is the input, in order;
 * `C17_limits*`             influxdb / otlp batches ≤ batch size, cloudwatch ≤ 20, a relay datagram is
@@ -24,35 +31,36 @@ open Backends
 
 /-! ## expand -/
 
-/-- **C17_expand_exact.**  For every configuration of a backend of the statsd naming family (datadog,
-influxdb fields, graphite in all three modes, cloudwatch, stdout, otlp with timers as gauges) and of the
-statsd relay, every sub-metric mask and every view whose series have distinct Go map keys: the
-(series, sub-metric) identity `(k, x)` occurs in `expand` exactly once when the view holds a series `k`
-for which `x` is enabled, and not at all otherwise. -/
-theorem C17_expand_exact (c : Cfg) (hc : StdBackend c ∨ c.backend = .statsdaemon)
+/-- **C17_expand_exact.**  For **every** configuration — each of the eight bundled backends (datadog, influxdb
+fields, graphite in all three modes, cloudwatch, stdout, otlp with timers as gauges or as histograms, newrelic
+with flush type infra, insights or metrics, the statsd relay) —, every sub-metric mask and every view whose
+series have distinct Go map keys: the (series, sub-metric) identity `(k, x)` occurs in `expand` exactly once
+when the view holds a series `k` for which `x` is enabled, and not at all otherwise. -/
+theorem C17_expand_exact (c : Cfg)
     (view : List Series) (hview : (view.map Series.key).Nodup) (k : Key) (x : Sub) :
     (ids (expand c view)).count (k, x) =
       if view.any (fun s => decide (s.key = k) && enabled c s x) then 1 else 0 := by
   rw [count_expand]
   have : (fun s => (ids (emit c s)).count (k, x)) = (fun s => if s.key = k ∧ enabled c s x = true then 1 else 0) := by
-    funext s; exact count_ids_emit c hc s k x
+    funext s; exact count_ids_emit c s k x
   rw [this]
   exact sum_indicator view hview k (fun s => enabled c s x)
 
-/-- no identity is emitted twice -/
-theorem C17_expand_nodup (c : Cfg) (hc : StdBackend c ∨ c.backend = .statsdaemon)
+/-- no identity is emitted twice (every configuration) -/
+theorem C17_expand_nodup (c : Cfg)
     (view : List Series) (hview : (view.map Series.key).Nodup) : (ids (expand c view)).Nodup := by
   rw [List.nodup_iff_count]
   intro a
   obtain ⟨k, x⟩ := a
-  rw [C17_expand_exact c hc view hview]
+  rw [C17_expand_exact c view hview]
   split <;> omega
 
-/-- an identity is emitted iff it is an enabled sub-metric of a series of the view (nothing lost, nothing else) -/
-theorem C17_expand_mem (c : Cfg) (hc : StdBackend c ∨ c.backend = .statsdaemon)
+/-- an identity is emitted iff it is an enabled sub-metric of a series of the view (nothing lost, nothing else;
+every configuration) -/
+theorem C17_expand_mem (c : Cfg)
     (view : List Series) (hview : (view.map Series.key).Nodup) (k : Key) (x : Sub) :
     (k, x) ∈ ids (expand c view) ↔ ∃ s ∈ view, s.key = k ∧ enabled c s x = true := by
-  rw [← List.count_pos_iff, C17_expand_exact c hc view hview]
+  rw [← List.count_pos_iff, C17_expand_exact c view hview]
   constructor
   · intro h
     split at h
@@ -67,15 +75,14 @@ theorem C17_expand_mem (c : Cfg) (hc : StdBackend c ∨ c.backend = .statsdaemon
       rw [List.any_eq_true]; exact ⟨s, hs, by simp [hk, he]⟩
     simp [this]
 
-/-- a disabled aggregation of a timer is not emitted (the mask is honoured) -/
+/-- a disabled aggregation of a timer is not emitted (the mask is honoured) — statsd naming family -/
 theorem C17_disabled_not_emitted (c : Cfg) (hc : StdBackend c) (view : List Series)
     (hview : (view.map Series.key).Nodup) (k : Key) (x : Sub) (hx : c.mask.dis x = true) :
     (k, x) ∉ ids (expand c view) := by
-  rw [C17_expand_mem c (Or.inl hc) view hview]
+  rw [C17_expand_mem c view hview]
   rintro ⟨s, _, _, he⟩
-  have hb : c.backend ≠ .statsdaemon := by
-    rcases hc with h | h | h | h | h | ⟨h, _⟩ <;> simp [h]
-  simp only [enabled, hb, if_false, enabledStd] at he
+  rw [enabled_std c hc] at he
+  simp only [enabledStd] at he
   cases hk : s.kind <;> simp only [hk] at he
   · cases x <;> simp_all [Mask.dis]
   · cases hh : s.hist <;> simp only [hh] at he
@@ -83,6 +90,53 @@ theorem C17_disabled_not_emitted (c : Cfg) (hc : StdBackend c) (view : List Seri
     · cases x <;> simp_all [Mask.dis]
   · cases x <;> simp_all [Mask.dis]
   · cases x <;> simp_all [Mask.dis]
+
+/-- New Relic honours the mask too, **except** for the four statistics that live inside the Metric API
+`summary` metric: a masked aggregation is not emitted unless the flush type is `metrics` and it is one of
+lower / upper / count / sum (`nrInSummary`). -/
+theorem C17_disabled_not_emitted_newrelic (c : Cfg) (hc : c.backend = .newrelic) (view : List Series)
+    (hview : (view.map Series.key).Nodup) (k : Key) (x : Sub) (hx : c.mask.dis x = true)
+    (hns : c.nrMode = .metrics → nrInSummary x = false) :
+    (k, x) ∉ ids (expand c view) := by
+  rw [C17_expand_mem c view hview]
+  rintro ⟨s, _, _, he⟩
+  rw [enabled_newrelic c hc] at he
+  simp only [enabledNr] at he
+  cases hk : s.kind <;> simp only [hk] at he
+  · cases x <;> simp_all [Mask.dis]
+  · cases hh : s.hist <;> simp only [hh] at he
+    · cases hm : c.nrMode <;> simp only [hm] at he hns
+      · cases x <;> simp_all [Mask.dis]
+      · cases x <;> simp_all [Mask.dis]
+      · have := hns trivial
+        cases x <;> simp_all [Mask.dis]
+    · cases x <;> simp_all [Mask.dis]
+  · cases x <;> simp_all [Mask.dis]
+  · cases x <;> simp_all [Mask.dis]
+
+/-- … and those four are emitted **regardless of the mask** (no hypothesis on `c.mask`): with flush type
+`metrics`, lower / upper / count / sum of `k` are in the payload exactly when `k` is a plain (non-histogram)
+timer of the view.  (The mask removes only the other five aggregations: previous theorem.) -/
+theorem C17_newrelic_summary_not_gated (c : Cfg) (hc : c.backend = .newrelic) (hm : c.nrMode = .metrics)
+    (view : List Series) (hview : (view.map Series.key).Nodup) (k : Key) (x : Sub) (hx : nrInSummary x = true) :
+    (k, x) ∈ ids (expand c view) ↔ ∃ s ∈ view, s.key = k ∧ s.kind = .timer ∧ s.hist = none := by
+  rw [C17_expand_mem c view hview]
+  have hen : ∀ s : Series, enabled c s x = true ↔ (s.kind = .timer ∧ s.hist = none) := by
+    intro s
+    rw [enabled_newrelic c hc]
+    simp only [enabledNr, hm]
+    cases hk : s.kind <;> simp only [hk]
+    · cases x <;> simp_all [nrInSummary]
+    · cases hh : s.hist <;> simp only [hh]
+      · cases x <;> simp_all [nrInSummary, timerSubs]
+      · cases x <;> simp_all [nrInSummary]
+    · cases x <;> simp_all [nrInSummary]
+    · cases x <;> simp_all [nrInSummary]
+  constructor
+  · rintro ⟨s, hs, hk, he⟩
+    exact ⟨s, hs, hk, (hen s).1 he⟩
+  · rintro ⟨s, hs, hk, ht⟩
+    exact ⟨s, hs, hk, (hen s).2 ht⟩
 
 /-- non-vacuity: a datadog view with a counter and a timer (upper disabled, one percentile) -/
 example :
@@ -92,13 +146,57 @@ example :
     (ids (expand c view)).map (·.2) = [.rate, .count, .lower, .tcount, .countPs, .mean, .median, .std, .sum, .sumSquares, .pct 0] := by
   refine ⟨Or.inl rfl, by decide, by decide⟩
 
+/-- newrelic, flush type `metrics`, a plain timer with `upper` and `mean` masked and one percentile: `mean` is
+gone, `upper` (inside the `summary` metric) is still sent -/
+example :
+    let c : Cfg := { backend := .newrelic, nrMode := .metrics, mask := { upper := true, mean := true } }
+    let view : List Series := [{ kind := .timer, name := "t", pcts := [{ name := "count_90", v := {} }] }]
+    (view.map Series.key).Nodup ∧
+    (ids (expand c view)).map (·.2) = [.lower, .upper, .tcount, .countPs, .median, .std, .sum, .sumSquares, .pct 0] ∧
+    (ids (expand c view)).map (·.2) = (([.lower, .upper, .tcount, .countPs, .mean, .median, .std, .sum, .sumSquares, .pct 0,
+      .summary, .value, .bucket 0] : List Sub).filter (enabled c { kind := .timer, name := "t", pcts := [{ name := "count_90", v := {} }] })) := by
+  refine ⟨by decide, by decide, by decide⟩
+
+/-- newrelic, flush type `infra`, a histogram timer with two buckets: count and per-second companion per bucket
+(and none of the plain aggregations, whatever the mask) -/
+example :
+    let c : Cfg := { backend := .newrelic, nrMode := .infra }
+    let view : List Series := [{ kind := .timer, name := "t", hist := some [{ le := "20", inf := false, count := {} }, { le := "", inf := true, count := {} }] },
+                               { kind := .gauge, name := "g" }]
+    (view.map Series.key).Nodup ∧
+    ids (expand c view) = [((.gauge, "g", ""), .value), ((.timer, "t", ""), .bucket 0), ((.timer, "t", ""), .bucketPs 0),
+                           ((.timer, "t", ""), .bucket 1), ((.timer, "t", ""), .bucketPs 1)] := by
+  refine ⟨by decide, by decide⟩
+
+/-- newrelic, flush type `insights`, a plain timer: the event's own value (`.summary`) precedes the aggregations -/
+example :
+    (ids (expand { backend := .newrelic, nrMode := .insights, mask := { sum := true } } [{ kind := .timer, name := "t" }])).map (·.2) =
+      [.summary, .lower, .upper, .tcount, .countPs, .mean, .median, .std, .sumSquares] := by decide
+
+/-- otlp with `otlpHist = true`: a timer is one histogram data point (`.summary`), with or without
+`Timer.Histogram`, whatever the mask -/
+example :
+    let c : Cfg := { backend := .otlp, otlpHist := true, mask := { lower := true } }
+    let view : List Series := [{ kind := .timer, name := "t", pcts := [{ name := "count_90", v := {} }] },
+                               { kind := .timer, name := "h", hist := some [{ le := "", inf := true, count := {} }] },
+                               { kind := .counter, name := "a" }]
+    (view.map Series.key).Nodup ∧
+    ids (expand c view) = [((.counter, "a", ""), .rate), ((.counter, "a", ""), .count),
+                           ((.timer, "t", ""), .summary), ((.timer, "h", ""), .summary)] := by
+  refine ⟨by decide, by decide⟩
+
 /-- **negative witness (finding newrelic-metrics-set-without-value).**  With flush type `metrics` the
-newrelic payload of a set carries no value: the exactness theorem above deliberately does not cover
-newrelic; the model reproduces what the code does. -/
+newrelic payload of a set carries no value.  The exactness theorems speak about identities (which sub-metric
+of which series is present, each once) and hold for newrelic too; this finding is about the type and value the
+present record carries, which the executable specification checks on the real payload.  The model reproduces
+what the code does. -/
 example :
     nrSetHasValue = true ∨   -- (after `handoff/C17-fix-1.patch` and the model switch the witness is gone)
     (expand { backend := .newrelic, nrMode := .metrics } [{ kind := .set, name := "users", value := { e := "4008000000000000" } }]).map
       (fun r => (r.name, r.kind, r.value)) = [("users", "/set", noValue)] := by decide
+-- Note (after the generalisation to every configuration): the exactness theorems now do cover newrelic.  They
+-- speak about *identities*: the set's `.value` record is emitted exactly once with or without the fix; the
+-- finding above concerns that record's type and value, which the identity theorems do not constrain.
 
 /-! ## batching: partition -/
 
